@@ -391,6 +391,17 @@ def r4(c):
              "block_exit == row": "is_exit", "row == block_exit": "is_exit"}
         return t.get(s, s)
     env = G.GuardEnv(rename=ren, subst=gm.aliases())
+    chain0 = next((n for n in walk_no_nested(fn) if isinstance(n, ast.If) and "order_reverse" in norm(n.test) and n.orelse and isinstance(n.orelse[0], ast.If)), None)
+    if chain0 is None or not (G.equivalent(G.formula(chain0.test, env), G.And(G.Not(G.Atom("order_reverse")), G.Or(G.Atom("direct_matched"), G.Atom("reverse_matched")))) and
+                               G.equivalent(G.formula(chain0.orelse[0].test, env), G.And(G.Atom("order_reverse"), G.Not(G.Atom("cmd_direct")), G.Atom("direct_matched")))):
+        # the same table cut differently (an intermediate "which regexp took the row" value, early continues, merged arms): decide it per path
+        if _get_order_by_paths(c, repo, m, fn, env) is not None:
+            rets = [n for n in walk_no_nested(fn) if isinstance(n, ast.Return)]
+            for r in rets:
+                ok = isinstance(r.value, ast.Tuple) and len(r.value.elts) == 4 and any(isinstance(n, ast.Name) and n.id == "children" for n in ast.walk(r.value.elts[2]))
+                c.check("C08.R4", ok, repo.loc(m, r), "get_order/return-children", f"`{norm(r)[:70]}` does not hand down the accumulated children rules", key_text="ret-children")
+            c.check("C08.R4", len(rets) >= 1, repo.loc(m, fn), "get_order/returns", "no return", key_text="no-return")
+            return
     # scope filter
     conts = [n for n in walk_no_nested(fn) if isinstance(n, ast.Continue)]
     ok = len(conts) == 1
@@ -450,6 +461,78 @@ def r4(c):
     ext = [x for x in calls_in(b1) if isinstance(x.func, ast.Attribute) and x.func.attr == "extend" and norm(x.func.value) == "children"]
     ok = bool(ext) and "children" in norm(ext[0].args[0]) and ("raw_rule" in norm(ext[0].args[0]) or norm(ext[0].args[0]).replace('"', "'").startswith("rule['children']"))
     c.check("C08.R4", ok, repo.loc(m, b1), "get_order/children-of-match", "children rules of a matching rule are not handed down", key_text="ext")
+
+
+def _get_order_by_paths(c, repo, m, fn, env):
+    """the branch table of get_order's loop body decided per path (sa/symexec.py): which effect happens under which condition.  Returns None when the loop body cannot be
+    enumerated (then the caller refuses), True otherwise (clauses checked)."""
+    from sa import symexec
+    loops = [st for st in walk_no_nested(fn) if isinstance(st, ast.For) and "ordering" in norm(st.iter)]
+    if len(loops) != 1:
+        return None
+    try:
+        paths = symexec.paths(loops[0].body, max_paths=512)
+    except Exception:
+        return None
+    if not paths or len(paths) >= 512:
+        return None
+
+    def cond(p_):
+        parts = []
+        for t, pol in p_.conds:
+            st_ = symexec._static_truth(t)
+            if st_ is not None:
+                if st_ != pol:
+                    return G.F          # a test on a value known on this path (`'direct_regexp' is None`): the path is not feasible
+                continue
+            g_ = G.formula(t, env)
+            parts.append(g_ if pol else G.Not(g_))
+        return G.And(*parts) if parts else G.T
+    paths = [p_ for p_ in paths if cond(p_) != G.F]
+
+    def has_call(p_, attr, recv="children"):
+        return any(k == "call" and isinstance(sub, ast.Call) and isinstance(sub.func, ast.Attribute) and sub.func.attr == attr and norm(sub.func.value) == recv for k, o, sub in p_.events)
+    F = lambda sel: G.Or(*[cond(p_) for p_ in paths if sel(p_)]) if any(sel(p_) for p_ in paths) else G.F    # noqa: E731
+    skipped = lambda p_: p_.ended and not has_call(p_, "extend") and "children" not in p_.env and "f_order" not in p_.env and not has_call(p_, "append")   # noqa: E731
+    is_inf = lambda p_: "f_order" in p_.env and "inf" in norm(p_.env["f_order"])    # noqa: E731
+    is_reset = lambda p_: "children" in p_.env and isinstance(p_.env["children"], ast.List) and not p_.env["children"].elts   # noqa: E731
+    is_flip = lambda p_: "cmd_direct" in p_.env and isinstance(p_.env["cmd_direct"], ast.Constant) and p_.env["cmd_direct"].value is True    # noqa: E731
+    # the scope filter: the paths that end before anything happened and whose condition speaks about the scope only
+    scope_paths = [p_ for p_ in paths if skipped(p_) and all(("scope" in a) for a in G.atoms(cond(p_)))]
+    S = G.Or(*[cond(p_) for p_ in scope_paths]) if scope_paths else G.F
+    at = G.atoms(S)
+    ok = bool(scope_paths) and any("scope" in a and " in " in a for a in at) and any("is None" in a for a in at)
+    c.check("C08.R4", ok, repo.loc(m, fn), "get_order/scope-filter", "scoped rules are not skipped exactly when the caller's scope is not listed", key_text="scope")
+    live = G.Not(S)
+    spec1 = G.And(G.Not(G.Atom("order_reverse")), G.Or(G.Atom("direct_matched"), G.Atom("reverse_matched")))
+    spec2 = G.And(G.Atom("order_reverse"), G.Not(G.Atom("cmd_direct")), G.Atom("direct_matched"))
+    f_app = F(lambda p_: has_call(p_, "append"))
+    c.check("C08.R4", G.equivalent(f_app, G.And(live, G.Atom("global"))), repo.loc(m, fn), "get_order/global-handed-down", "%global ordering rules are not (unconditionally) handed down to the children",
+            key_text="global")
+    f_ext = F(lambda p_: has_call(p_, "extend"))
+    c.check("C08.R4", G.equivalent(f_ext, G.And(live, spec1)), repo.loc(m, fn), "get_order/direct-branch", f"the children rules of a plain rule are handed down under {G.show(f_ext)[:160]}; expected "
+            "¬order_reverse ∧ (direct ∨ reverse match)", key_text="b1")
+    f_res = F(lambda p_: is_reset(p_) and not is_inf(p_))
+    c.check("C08.R4", G.equivalent(f_res, G.And(live, spec2)), repo.loc(m, fn), "get_order/order_reverse-branch", f"order_reverse rules take the row under {G.show(f_res)[:160]}; expected order_reverse ∧ "
+            "¬cmd_direct ∧ direct match", key_text="b2")
+    f_flip = F(lambda p_: is_flip(p_) and not is_inf(p_))
+    first = G.And(live, spec2, G.Atom("f_order is None"))
+    c.check("C08.R4", f_flip != G.F and G.implies(f_flip, spec2) and G.implies(first, f_flip), repo.loc(m, fn), "get_order/order_reverse-flips", "a command pinned by an order_reverse rule is not flipped to direct",
+            key_text="flip")
+    f_inf = F(is_inf)
+    exit_spec = G.Or(G.And(G.Atom("block_exit"), G.Atom("is_exit")), G.Atom("is_exit"))
+    okx = f_inf != G.F and (G.equivalent(f_inf, G.And(live, G.Not(spec1), G.Not(spec2), G.Atom("block_exit"), G.Atom("is_exit")))
+                            or G.equivalent(f_inf, G.And(live, G.Not(spec1), G.Not(spec2), G.Atom("is_exit"))))
+    if f_inf == G.F:
+        c.violated("C08.R4", repo.loc(m, fn), "get_order/block-exit-branch", "the block-exit branch is missing: the exit word is ordered like any other command", key_text="b3-missing")
+    else:
+        c.check("C08.R4", okx, repo.loc(m, fn), "get_order/block-exit-branch", f"the block-exit rule applies under {G.show(f_inf)[:160]}; expected: no rule took the row and the row equals the vendor's exit word",
+                key_text="b3")
+        c.check("C08.R4", all(is_flip(p_) and is_reset(p_) for p_ in paths if is_inf(p_)), repo.loc(m, fn), "get_order/block-exit-last", "block exit does not get order +inf, direct and no children", key_text="b3-inf")
+    ext_args = [sub for p_ in paths for k, o, sub in p_.events if k == "call" and isinstance(sub, ast.Call) and isinstance(sub.func, ast.Attribute) and sub.func.attr == "extend"]
+    ok = bool(ext_args) and all("children" in norm(x.args[0]) and ("raw_rule" in norm(x.args[0]) or norm(x.args[0]).replace('"', "'").startswith("rule['children']")) for x in ext_args)
+    c.check("C08.R4", ok, repo.loc(m, fn), "get_order/children-of-match", "children rules of a matching rule are not handed down", key_text="ext")
+    return True
 
 
 def r5(c):
